@@ -110,10 +110,26 @@ Proof.
   - apply (@check_consistency_inv hh). exact HI.
 Qed.
 
-Lemma step_op_x_inv hh o s :
-  Inv hh s -> (hh = true -> protocol_hold_x_b s o = true) -> wpg false (step_op_x o s) (fun s' => Inv hh s').
+Lemma undefer_row_ok hh r : sw_ok_b hh r = true -> sw_ok_b hh (undefer_row r) = true.
 Proof.
-  intros HI Hp. destruct o; cbn [step_op_x].
+  unfold sw_ok_b, undefer_row. cbn [sdef sst shold]. intros H. apply andb_true_iff in H. destruct H as [_ H].
+  rewrite H. reflexivity.
+Qed.
+
+Lemma undefer_fold_inv hh ls : forall a, Inv hh a -> Inv hh (fold_left (fun a l => upd_step l undefer_row a) ls a).
+Proof.
+  induction ls as [|l ls IH]; intros a HI; cbn [fold_left]; [exact HI|].
+  apply IH. apply (@upd_step_inv hh); [exact HI | intros r; reflexivity |].
+  intros r Hr _. apply undefer_row_ok. pose proof (inv_sw _ HI) as Hsw. apply Hsw. exact Hr.
+Qed.
+
+Lemma undefer_post_inv hh s s' : Inv hh s' -> Inv hh (undefer_post s s').
+Proof. intros HI. unfold undefer_post. apply undefer_fold_inv. exact HI. Qed.
+
+Lemma step_op_x0_inv hh o s :
+  Inv hh s -> (hh = true -> protocol_hold_x_b s o = true) -> wpg false (step_op_x0 o s) (fun s' => Inv hh s').
+Proof.
+  intros HI Hp. destruct o; cbn [step_op_x0].
   - apply step_op_c_inv; [exact HI | exact Hp].
   - apply (@skip_overtaken_inv hh). exact HI.
   - apply (@invalidate_steps_inv hh). exact HI.
@@ -122,6 +138,30 @@ Proof.
   - apply (@reset_interrupted_raw_inv hh). exact HI.
   - apply (@init_boot_inv hh). exact HI.
   - exact HI.
+Qed.
+
+Lemma wrap_inv hh o s :
+  Inv hh s -> (hh = true -> protocol_hold_x_b s o = true) ->
+  wpg false (match step_op_x0 o s with
+             | Ok s' => Ok (undefer_post s s') | Usage t => Usage t | Internal t => Internal t end)
+      (fun s' => Inv hh s').
+Proof.
+  intros HI Hp. pose proof (step_op_x0_inv hh o s HI Hp) as H.
+  destruct (step_op_x0 o s); cbn [wpg] in *; [apply undefer_post_inv; exact H | exact I | exact I].
+Qed.
+
+Lemma step_op_x_inv hh o s :
+  Inv hh s -> (hh = true -> protocol_hold_x_b s o = true) -> wpg false (step_op_x o s) (fun s' => Inv hh s').
+Proof.
+  intros HI Hp.
+  assert (Hv : forall l, wpg false (set_sstate l SPending (has_unusable_dynamic_input l s) s) (fun s' => Inv hh s')).
+  { intros l. eapply wpg_weaken; [apply (@set_sstate_spec hh); [exact HI | intros H; discriminate H]|].
+    intros s' [H _]. exact H. }
+  destruct o as [oc| | | | | | |]; try (apply wrap_inv; assumption).
+  destruct oc as [ot|]; [|apply wrap_inv; assumption].
+  destruct ot as [ob|]; [|apply wrap_inv; assumption].
+  destruct ob; try (apply wrap_inv; assumption).
+  cbn [step_op_x]. apply Hv.
 Qed.
 
 Lemma apply_op_x_inv hh o s :
